@@ -133,6 +133,12 @@ def tasks(ctx):
     import props.wiring as wr
     ts.append(LemmaTask("lemma:power-on", lambda c, e, ce: wr.power_on(c, e, ce, wiring=False), ["gameboy.New", "memory.New", "ppu.New", "oam.New", "audio.New", "timer.New"]))
     ts.extend(mc.invariant_tasks(ctx))
+    # "each hardware register reads back the bits last written": the sound registers' read-back lemmas (C18 owns them; FF10-FF3F
+    # are hardware registers of this address space too)
+    import props.audio_common as ac
+    t = LemmaTask("lemma:readback-sound", ac.readback_lemmas, [ac.A + "Write" + r for r in ac.MASKS] + [ac.A + "Read" + r for r in ac.MASKS])
+    t.keep = lambda name: "lemma:readback:" in name or "canary" in name
+    ts.append(t)
     return filter_tasks(ts)
 
 
